@@ -162,7 +162,9 @@ func (w *World) leave(name string) {
 // that a duplicated, dropped or reordered call changes later results.
 func (w *World) salt(idx int) int {
 	if w != nil && w.Stateful {
-		return idx*5 + 1
+		// bounded, so that results fed back into ranges and loops cannot grow
+		// without limit over a long run
+		return (idx%7)*5 + 1
 	}
 	return 0
 }
